@@ -313,6 +313,10 @@ def resolve_callees(p, call, fn):
                 for b in p.mro(c.name)[1:]:
                     if f.attr in p.methods(b):
                         return [p.methods(b)[f.attr]]
+        # fallback: a method name defined by exactly one class of the package (e.g. <session>.user.get_permissions)
+        owners = [(cn, cd) for cn, (cd, _m) in p.classes.items() if f.attr in p.methods(cn)]
+        if len(owners) == 1 and not f.attr.startswith("__") and f.attr not in ("read", "write", "close", "get", "wait", "join", "put"):
+            return [p.methods(owners[0][0])[f.attr]]
         return None
     if isinstance(f, ast.Name):
         e = fn
